@@ -369,9 +369,8 @@ def run_impl(case: dict) -> dict:
                             continue
                         measured.add(key)
                         vs = _perfile_call(root, proj, p, kc)
-                        ver = None if fs.get(p) is None else oc.enc_version(fs[p], kc)
-                        if ver is None and any(e[0] == p and e[1] is None for e in res["pf"]):
-                            continue
+                        # a path without a file is still judged (file-placement looks at the path alone): one row per configuration
+                        ver = oc.absent_version(kc) if fs.get(p) is None else oc.enc_version(fs[p], kc)
                         res["pf"].append([p, ver, [v for v in vs if not str(v[0]).startswith("file-placement")]])
                         res["fp"].append([p, ver, [v for v in vs if str(v[0]).startswith("file-placement")]])
             del lin
